@@ -107,6 +107,99 @@ def contains_node(root, node):
     return any(n is node for n in hir.walk(root))
 
 
+def _g3_length_form(r, b, path, st, params, h):
+    """The arity gate written as an explicit length comparison: `if ty.len() != N { return Err(..) }` followed by indexed checks
+    `check_roto_type_reflect::<A_k>(.., &ty[k-1])?`. Only `!=` (or `==` with the Err in the else) is an exact gate."""
+    n = len(params)
+    ld = hir.LocalDefs(b.hir)
+    pidx = hir.param_index(b.hir)
+    last_param = len(b.hir["params"]) - 1
+
+    def is_ty_len(e):
+        e = hir.strip(e)
+        return e.get("k") == "mcall" and e["m"] == "len" and hir.param_roots(b.hir, ld, e["recv"], pidx=pidx) == {last_param}
+
+    def const_len(e, depth=0):
+        """value of an expression that denotes the Rust arity: literal, or len() of an array literal / of a local bound to one"""
+        e = hir.peel_refs(hir.strip(e))
+        if e.get("k") == "lit" and isinstance(e.get("v"), int):
+            return e["v"]
+        if e.get("k") == "mcall" and e["m"] == "len":
+            x = hir.peel_refs(hir.strip(e["recv"]))
+            if x.get("k") == "path" and hir.res_local(x) is not None and depth < 3:
+                d = ld.get(hir.res_local(x))
+                x = hir.peel_refs(hir.strip(d[1])) if d and d[1] is not None else {}
+            if x.get("k") == "array":
+                return len(x["elems"])
+        return None
+    gate = None
+    for iff in hir.nodes(h, "if"):
+        c = hir.strip(iff["cond"])
+        if c.get("k") != "bin" or c.get("op") not in ("!=", "==", "<", ">", "<=", ">="):
+            continue
+        for x, y, flip in ((c["a"], c["b"], False), (c["b"], c["a"], True)):
+            if is_ty_len(x) and const_len(y) is not None:
+                gate = (iff, c["op"], const_len(y))
+    if gate is None:
+        r.bad(path, "arity", relfile(b.file), b.line, "the parameter list is neither destructured with an exact slice pattern nor compared with the Rust arity")
+        return
+    iff, op, k = gate
+    errs = lambda br: br is not None and hir.diverges(br) and any("Err" in str(hir.result_desc(x.get("e"))) for x in hir.nodes(br, "ret"))
+    exact = (op == "!=" and errs(iff["then"])) or (op == "==" and errs(iff.get("else")))
+    if k != n:
+        r.bad(path, "arity", relfile(b.file), iff["line"], "the parameter list is compared with %d, the Rust function type has %d parameters" % (k, n))
+    if not exact:
+        r.bad(path, "arity", relfile(b.file), iff["line"],
+              "the arity gate is `len %s %d`: it refuses only one direction, so a Rust function type with %s parameters than the Roto function is handed out" % (op, k, "fewer" if op in ("<", "<=") else "other"))
+    # indexed checks: constant propagation over the statement list (`let mut i = 0; i += 1; .. &ty[i - 1]`)
+    env = {}
+    tried = try_inner_exprs(h)
+    seen_k = set()
+
+    def val(e):
+        e = hir.peel_refs(hir.strip(e))
+        if e.get("k") == "lit" and isinstance(e.get("v"), int):
+            return e["v"]
+        if e.get("k") == "path" and hir.res_local(e) in env:
+            return env[hir.res_local(e)]
+        if e.get("k") == "bin" and e.get("op") in ("+", "-"):
+            a, b_ = val(e["a"]), val(e["b"])
+            if a is None or b_ is None:
+                return None
+            return a + b_ if e["op"] == "+" else a - b_
+        return None
+    body = hir.strip(h)
+    for stn in (body.get("stmts") or []) + ([body["expr"]] if body.get("expr") else []):
+        if stn.get("k") == "letstmt" and stn["pat"].get("k") == "bind" and stn.get("init") is not None:
+            v = val(stn["init"])
+            if v is not None:
+                env[stn["pat"]["local"]] = v
+        for n2 in hir.walk(stn):
+            if n2.get("k") == "assignop" and n2.get("op") in ("+=", "-="):
+                l = hir.res_local(hir.peel_refs(hir.strip(n2["lhs"])))
+                v = val(n2["rhs"])
+                if l in env and v is not None:
+                    env[l] = env[l] + v if n2["op"] == "+=" else env[l] - v
+            if n2.get("k") == "call" and hir.call_def(n2) == "codegen::check::check_roto_type_reflect":
+                ga = n2["f"].get("gargs") or []
+                a1 = hir.peel_refs(hir.strip(n2["args"][1]))
+                idx = val(a1["i"]) if a1.get("k") == "index" and "i" in a1 else None
+                if idx is None and a1.get("k") == "index":
+                    idx = val(a1.get("idx") or a1.get("index") or {})
+                r.inst("%s|param %s" % (st, idx), {"impl": st, "rust_type_param": ga[0] if ga else None, "roto_index": idx})
+                if idx is None or not (0 <= idx < n):
+                    r.bad(path, "position", relfile(b.file), n2["line"], "check_roto_type_reflect is applied to something that is not an element ty[k] with constant k")
+                    continue
+                seen_k.add(idx)
+                if not ga or ga[0] != params[idx]:
+                    r.bad(path, "param %d" % (idx + 1), relfile(b.file), n2["line"], "Roto parameter %d is checked against Rust type %s, expected %s" % (idx + 1, ga[0] if ga else "?", params[idx]))
+                if not any(contains_node(t, n2) for t in tried):
+                    r.bad(path, "param %d" % (idx + 1), relfile(b.file), n2["line"], "result of the check of parameter %d is not propagated with `?`" % (idx + 1))
+    for k2 in range(n):
+        if k2 not in seen_k:
+            r.bad(path, "param %d" % (k2 + 1), relfile(b.file), b.line, "parameter %d is never checked" % (k2 + 1))
+
+
 def rule_g3(F):
     r = RuleResult("C04.G3", "each RotoFunc impl: rest-less slice pattern of N bindings; binding k checked against type parameter k through `?`", floor=8 + 28)
     imps = [i for i in F.impls() if i.get("trait") == "codegen::check::RotoFunc"]
@@ -130,7 +223,7 @@ def rule_g3(F):
         lets = [l for l in hir.nodes(h, "letstmt") if l["pat"].get("k") == "pslice"]
         r.inst("%s|arity" % st, {"impl": st, "expected_bindings": n})
         if len(lets) != 1:
-            r.bad(path, "arity", relfile(b.file), b.line, "expected exactly one slice destructuring of the parameter list, found %d" % len(lets))
+            _g3_length_form(r, b, path, st, params, h)
             continue
         l = lets[0]
         pat = l["pat"]
